@@ -37,6 +37,7 @@ package interp
 import (
 	"bytes"
 	"fmt"
+	"os"
 	"go/types"
 	"io"
 	"reflect"
@@ -246,6 +247,9 @@ func equals(t types.Type, x, y value) value {
 	// Since map, func and slice don't support comparison, this
 	// case is only reachable if one of x or y is literally nil
 	// (handled in eqnil) or via interface{} values.
+	if debugStacks {
+		fmt.Fprintf(os.Stderr, "target panic: comparing uncomparable type %s (%T)\n", t, x)
+	}
 	panic(targetPanic{fmt.Sprintf("runtime error: comparing uncomparable type %s", t)})
 }
 
